@@ -187,6 +187,12 @@ func genC15(w *bufio.Writer, tier string, rng *rand.Rand) {
 			for i := range v {
 				v[i] = math.Round((0.1+rng.Float64()*3)*64) / 64
 			}
+			if rng.Intn(5) == 0 { // all weights on a very small / very large common scale (1/sigma^2 with huge or tiny sigma)
+				sc := math.Ldexp(1, []int{-80, -330, 80, 330, -600, 600}[rng.Intn(6)])
+				for i := range v {
+					v[i] *= sc
+				}
+			}
 			ws = fmtFs(v)
 		}
 		switch rng.Intn(3) {
@@ -287,6 +293,25 @@ func genC15(w *bufio.Writer, tier string, rng *rand.Rand) {
 		}
 	}
 
+	// every window width: spans k/n for every n and k (rational spans whose product with n lands on,
+	// just above or just below a whole number in floating point)
+	for n := 6; n <= pick(tier, 30, 45); n++ {
+		for k := 3; k <= n; k++ {
+			if !isThorough(tier) && rng.Intn(3) != 0 {
+				continue
+			}
+			xs := distinctXs(rng, n)
+			sort.Float64s(xs)
+			ys := make([]float64, n)
+			for i, x := range xs {
+				ys[i] = math.Sin(3*x) + x*x
+			}
+			deg := rng.Intn(2)
+			span := float64(k) / float64(n)
+			q := xs[rng.Intn(n)] + 0.01
+			fmt.Fprintf(w, "loess %s %s %d %s %s\n", fmtFs(xs), fmtFs(ys), deg, fmtF(span), fmtFs([]float64{q, xs[0], xs[n-1]}))
+		}
+	}
 	// designed data: symmetric integer abscissae and even / odd integer polynomials, so that some
 	// fitted coefficients are exactly zero (not merely of the order of the rounding error)
 	for k := 0; k < pick(tier, 60, 1500); k++ {
